@@ -12,7 +12,17 @@ def run(ctx: Ctx) -> None:
     info = qm.check_models(ctx)
     mscs, predicted = qm.model_scenarios(ctx, 'c08')
     mscs = [m for m in mscs if any(st['op'] == 'unreg' for st in m['steps'])]
-    scenarios, traces = run_family(ctx, 'C08', 'c08', 400, 12000, mscs)
+    # unregistrations among the calls of the lifecycle model (spec/Lifecycle.tla; GoodbyeComplete, NoResurrection)
+    from props import lifecyclemodel as lm
+    linfo = lm.check_models(ctx)
+    lscs, lpred = lm.model_scenarios(ctx, 'c08')
+    lscs = [m for m in lscs if any(st['op'] == 'unreg' for st in m['steps'])]
+    scenarios, traces = run_family(ctx, 'C08', 'c08', 400, 12000, mscs + lscs)
+    ld = lm.drift(traces, {k: v for k, v in lpred.items() if k in {m['id'] for m in lscs}})
+    for x in ld[:5]:
+        print('MODEL-DRIFT property=C08 scenario=%s real multicasts %s, model predicts %s (evidence, not a verdict)' % (x['scenario'], x['real'], x['model']))
+    ctx.coverage.update(linfo)
+    ctx.coverage.update({'lifecycle_behaviours_replayed': len(lscs), 'lifecycle_model_drift': len(ld)})
     d = qm.drift(traces, predicted)
     for x in d[:5]:
         print('MODEL-DRIFT property=C08 scenario=%s real multicast answers %s, model predicts %s (evidence, not a verdict)'
